@@ -47,7 +47,8 @@ GROUP: Dict[str, str] = {
     "ExecutionPlan_validate_required_uuids_are_produced": "Proofs/SrcTieValidP.v",
     # round 2: options
     **{t: "Proofs/SrcTieOptP.v" for t in ("Options_get", "Options_items", "OptionsValidator_validate_can_add_to_group",
-                                          "Options_add_to_group", "Options_add", "Features_merge_options")},
+                                          "Options_add_to_group", "Options_add", "Features_merge_options",
+                                          "OptionsValidator_validate_can_add_to_context", "Options_add_to_context", "Options_set")},
     **{t: "Proofs/SrcTieUpdP.v" for t in ("OptionsValidator_validate_no_group_context_conflicts",
                                           "OptionsValidator_validate_no_context_group_conflicts",
                                           "Options_update_with_protected_keys")},
@@ -92,6 +93,8 @@ LEMMA_TARGET = {
     "options_get_src": "Options_get", "options_items_src": "Options_items",
     "validate_can_add_to_group_src": "OptionsValidator_validate_can_add_to_group",
     "options_add_to_group_src": "Options_add_to_group", "options_add_src": "Options_add",
+    "validate_can_add_to_context_src": "OptionsValidator_validate_can_add_to_context",
+    "options_add_to_context_src": "Options_add_to_context", "options_set_src": "Options_set",
     **{l: "Features_merge_options" for l in ("kmem_union1", "merge_loop2_src", "merge_loop1_src", "merge_conflict_ext",
                                              "merge_options_src", "merge_options_model")},
     "inter_nonempty": "OptionsValidator_validate_no_group_context_conflicts",
@@ -414,8 +417,10 @@ def _space_opt(target: str) -> Dict[str, Any]:
                                       f"{cq_list(c15.key_term(c15.to_py(k)) for k in i['b'])}), {_ob(o)})"),
                 "type": ty, "req": c15.REQ,
                 "defs": OB + f"Definition chk (c : {ty}) := ob (snd c) (existsb (fun k => kmem k (snd (fst c))) (fst (fst c)))."}
-    elif target in ("Options_add", "Options_add_to_group", "OptionsValidator_validate_can_add_to_group"):
-        op = "add" if target == "Options_add" else "add_group"
+    elif target in ("Options_add", "Options_add_to_group", "OptionsValidator_validate_can_add_to_group", "Options_add_to_context",
+                    "OptionsValidator_validate_can_add_to_context", "Options_set"):
+        op = {"Options_add": "add", "Options_add_to_context": "add_context", "OptionsValidator_validate_can_add_to_context": "add_context",
+              "Options_set": "set"}.get(target, "add_group")
         inits = [{"g": opts(("a", a), ("b", b)), "c": opts(("c", c)), "p": []}
                  for a in ("absent", 1, 2, ["L", [1]]) for b in ("absent", True) for c in ("absent", 1)]
         cases = [{"init": i, "ops": [{"op": op, "k": k, "v": v}]} for i in inits for k in ("a", "b", "c", 1)
@@ -442,13 +447,15 @@ def _space_opt(target: str) -> Dict[str, Any]:
                         "dict_same (o_items (mk_other (fst c))) l | None => false end."}
     else:
         raise KeyError(target)
-    if target == "OptionsValidator_validate_can_add_to_group":
+    if target in ("OptionsValidator_validate_can_add_to_group", "OptionsValidator_validate_can_add_to_context"):
         from mloda.core.abstract_plugins.components.validators.options_validator import OptionsValidator
+        vfn = getattr(OptionsValidator, target[len("OptionsValidator_"):])
+        mfn = "o_add_group" if target.endswith("group") else "o_add_context"
 
         def real_val(i: dict) -> Any:
             o = c15.build_options(i["init"])
             try:
-                OptionsValidator.validate_can_add_to_group(c15.to_py(i["ops"][0]["k"]), c15.to_py(i["ops"][0]["v"]), o.group, o.context)
+                vfn(c15.to_py(i["ops"][0]["k"]), c15.to_py(i["ops"][0]["v"]), o.group, o.context)
                 return 0
             except Exception as ex:  # noqa: BLE001
                 return c15.err_code(ex)
@@ -458,7 +465,7 @@ def _space_opt(target: str) -> Dict[str, Any]:
                                       f"{c15.val_term(c15.to_py(i['ops'][0]['v']))}), {c15.err_term(o if isinstance(o, int) else 3)})"),
                 "type": ty, "req": c15.REQ,
                 "defs": c15.EXTRA_OPS + f"Definition chk (c : {ty}) := match c with ((i, k, v), o) => "
-                        "err_same (snd (o_add_group k v (mk_other i))) o end."}
+                        f"err_same (snd ({mfn} k v (mk_other i))) o end."}
 
     def real_seq(i: dict) -> Any:
         obs = c15.run_sequence(i)
